@@ -282,7 +282,13 @@ func refusalHelpers(fn *ssa.Function) []*ssa.Function {
 				// descriptor: value receiver) are, whatever they are called
 				if recv := h.Signature.Recv(); recv != nil {
 					if _, isPtr := recv.Type().(*types.Pointer); isPtr {
-						continue
+						// … except a part of g split off as an unexported method that
+						// g runs on its own receiver (checkRep divided into the checks
+						// of its two forms)
+						args := c.Common().Args
+						if !(len(g.Params) > 0 && g.Signature.Recv() != nil && len(args) > 0 && args[0] == ssa.Value(g.Params[0]) && !c.Common().IsInvoke()) {
+							continue
+						}
 					}
 				} else if strings.Contains(h.Name(), "checkRep") {
 					continue
